@@ -520,7 +520,12 @@ class SessionDescription:
                             clockRate=int(bits[1]),
                             payloadType=int(format_id),
                         )
-                        current_media.rtp.codecs.append(codec)
+                        # a payload type is only mapped once, ignore repetitions
+                        if not any(
+                            x.payloadType == codec.payloadType
+                            for x in current_media.rtp.codecs
+                        ):
+                            current_media.rtp.codecs.append(codec)
                     elif attr == "sctpmap":
                         format_id, format_desc = value.split(" ", 1)
                         getattr(current_media, attr)[int(format_id)] = format_desc
